@@ -73,6 +73,9 @@ type Script struct {
 	MDAfterCtx bool `json:"md_after_ctx,omitempty"`
 	// PauseMs: the handler stays quiet this long before it returns its status.
 	PauseMs int `json:"pause_ms,omitempty"`
+	// Pad: the request message and every reply carry this many bytes of
+	// (compressible) data: message size as a dimension of the traffic.
+	Pad int `json:"pad,omitempty"`
 	// metadata operations (C14)
 	Hdr     []KV `json:"hdr,omitempty"`      // header metadata set before the first reply
 	SendHdr bool `json:"send_hdr,omitempty"` // use SendHeader instead of SetHeader for Hdr
@@ -467,6 +470,25 @@ func newChunk(id string, seq int32) proto.Message {
 	return m
 }
 
+// padData is n bytes of compressible, non-constant data.
+func padData(n int) []byte {
+	b := make([]byte, n)
+	for i := range b {
+		b[i] = "larking verif pad "[i%18] + byte(i/977)
+	}
+	return b
+}
+
+// newChunkPad is newChunk with pad bytes of data.
+func newChunkPad(id string, seq int32, pad int) proto.Message {
+	m := newChunk(id, seq)
+	if pad > 0 {
+		r := m.ProtoReflect()
+		r.Set(r.Descriptor().Fields().ByName("data"), protoreflect.ValueOfBytes(padData(pad)))
+	}
+	return m
+}
+
 // chunkID reads the script id from the request: Chunk.id, or Upload.name on
 // the HttpBody upload route.
 func chunkID(m proto.Message) string {
@@ -630,7 +652,7 @@ func (e *Env) unary(ctx context.Context, md protoreflect.MethodDescriptor, in pr
 	if md.Output().FullName() != chunkDesc().FullName() {
 		return vschema.NewMsg(md.Output()), nil
 	}
-	return newChunk(id, 1), nil
+	return newChunkPad(id, 1, sc.Pad), nil
 }
 
 func (e *Env) stream(md protoreflect.MethodDescriptor, ss grpc.ServerStream) error {
@@ -656,7 +678,7 @@ func (e *Env) stream(md protoreflect.MethodDescriptor, ss grpc.ServerStream) err
 		mdOps()
 	}
 	for i := 0; i < sc.Replies; i++ {
-		if err := ss.SendMsg(newChunk(id, int32(i+1))); err != nil {
+		if err := ss.SendMsg(newChunkPad(id, int32(i+1), sc.Pad)); err != nil {
 			e.record(id, func(r *Rec) { r.OpErrs = append(r.OpErrs, "SendMsg: "+err.Error()) })
 			break
 		}
@@ -700,17 +722,25 @@ type HdrSpec struct {
 	Name   string   `json:"name"`             // as sent (mixed case)
 	Vals   [][]byte `json:"vals"`             // logical values (raw bytes for -bin)
 	Padded bool     `json:"padded,omitempty"` // -bin only: send padded base64
+	Pads   []bool   `json:"pads,omitempty"`   // -bin only: per-value spelling (overrides Padded for value i)
+}
+
+func (h HdrSpec) padded(i int) bool {
+	if i < len(h.Pads) {
+		return h.Pads[i]
+	}
+	return h.Padded
 }
 
 func (h HdrSpec) bin() bool { return strings.HasSuffix(strings.ToLower(h.Name), "-bin") }
 
 func (h HdrSpec) wire() []string {
 	var out []string
-	for _, v := range h.Vals {
+	for i, v := range h.Vals {
 		switch {
 		case !h.bin():
 			out = append(out, string(v))
-		case h.Padded:
+		case h.padded(i):
 			out = append(out, base64.StdEncoding.EncodeToString(v))
 		default:
 			out = append(out, base64.RawStdEncoding.EncodeToString(v))
@@ -762,6 +792,13 @@ type Case struct {
 	// Target: "" = the handler is registered on the mux; "proxy" = it runs on a
 	// real grpc.Server that the mux reaches through RegisterConn.
 	Target string `json:"target,omitempty"`
+	// After (C05): the kind of traffic the same server process (same mux, same
+	// target) serves, concurrently, right before this case: "" none |
+	// "failed-calls" | "large-messages" | "ws-streams" | "http-gzip" |
+	// "gzip-grpcweb" | "gzip-grpc" | "mixed" (see historyCalls). Whatever a
+	// server has served before, the client of this case observes the status its
+	// handler returned.
+	After string `json:"after,omitempty"`
 }
 
 func (c *Case) streaming() bool { return c.Method != "Echo" }
@@ -798,6 +835,8 @@ type Obs struct {
 	SeqDiff      string   // the response differs from the one the same request gets on a fresh mux
 	EncErr       string   // the body does not decode per the response Content-Encoding
 	Stuck        string   // a watchdog fired while the request was inside larking: goroutine excerpt
+	CompFrames   int      // reply frames that arrived with the compressed flag (raw clients)
+	Hist         *HistObs // what the clients of the preceding traffic (Case.After) observed
 	// client-visible metadata, lower-cased keys; -bin values still encoded
 	// for raw clients, decoded for grpc-go (BinDecoded)
 	MDHdr      map[string][]string
@@ -848,7 +887,7 @@ func isTimeout(err error) bool {
 const sockTimeout = 30 * time.Second
 
 func (c *Case) reqBody(id string) ([]byte, string) {
-	m := newChunk(id, 0)
+	m := newChunkPad(id, 0, c.Script.Pad)
 	if c.Codec == "json" {
 		b, _ := protojson.Marshal(m)
 		return b, "application/json"
@@ -870,14 +909,9 @@ func (c *Case) reqHeaders(h http.Header, canonical bool) {
 	}
 }
 
-// run executes the case and returns the client observation and the handler
-// record.
-func (e *Env) run(c *Case) (*Obs, Rec) {
-	if err := e.use(c.Target, c.Opt); err != nil {
-		return &Obs{Err: "environment: " + err.Error(), Timeout: true}, Rec{}
-	}
-	sc := c.Script
-	id := e.register(&sc)
+// do sends the request of the case with the client of its protocol. It only
+// reads the environment: several calls may run at the same time.
+func (e *Env) do(c *Case, id string) *Obs {
 	var o *Obs
 	switch c.Proto {
 	case "http", "twirp":
@@ -907,6 +941,23 @@ func (e *Env) run(c *Case) (*Obs, Rec) {
 	default:
 		o = &Obs{Err: "unknown protocol " + c.Proto}
 	}
+	return o
+}
+
+// run executes the case and returns the client observation and the handler
+// record.
+func (e *Env) run(c *Case) (*Obs, Rec) {
+	if err := e.use(c.Target, c.Opt); err != nil {
+		return &Obs{Err: "environment: " + err.Error(), Timeout: true}, Rec{}
+	}
+	var hist *HistObs
+	if c.After != "" {
+		hist = e.history(c)
+	}
+	sc := c.Script
+	id := e.register(&sc)
+	o := e.do(c, id)
+	o.Hist = hist
 	if (strings.HasPrefix(c.Proto, "http") || strings.HasPrefix(c.Proto, "twirp")) && o.Hdr != nil {
 		// the client decodes the body per the response's Content-Encoding
 		switch ce := strings.ToLower(strings.TrimSpace(o.Hdr.Get("Content-Encoding"))); ce {
@@ -987,9 +1038,20 @@ func fromResp(r *wire.Resp) *Obs {
 	return o
 }
 
+// httpGzipBody: HTTP cases with Gzip send their body with Content-Encoding
+// gzip.
+func (c *Case) httpGzipBody(h http.Header, body []byte) []byte {
+	if !c.Gzip {
+		return body
+	}
+	h.Set("Content-Encoding", "gzip")
+	return wire.Gzip(body)
+}
+
 func (e *Env) doHTTPInproc(c *Case, id string) *Obs {
 	body, ct := c.reqBody(id)
 	h := c.httpHeader(ct)
+	body = c.httpGzipBody(h, body)
 	c.reqHeaders(h, true)
 	r := wire.Serve(e.Mux, wire.BodyRequest("POST", c.httpTarget(e), "", h, body))
 	return fromResp(r)
@@ -1231,6 +1293,7 @@ func (e *Env) sockDoBody(cl *http.Client, path string, h http.Header, body io.Re
 func (e *Env) doHTTPSock(c *Case, id string) *Obs {
 	body, ct := c.reqBody(id)
 	h := c.httpHeader(ct)
+	body = c.httpGzipBody(h, body)
 	c.reqHeaders(h, false)
 	return e.sockDo(e.H1, c.httpTarget(e), h, body)
 }
@@ -1261,6 +1324,14 @@ func (o *Obs) setStatusText(code, msg, det string) {
 			return
 		}
 		o.Details = st
+	}
+}
+
+func (o *Obs) countCompressed(frames []wire.GFrame) {
+	for _, f := range frames {
+		if f.Compressed() {
+			o.CompFrames++
+		}
 	}
 }
 
@@ -1296,7 +1367,7 @@ func (e *Env) doGRPC(c *Case, id string) *Obs {
 	full := e.Std.Full(c.Method)
 	if c.Method == "Echo" {
 		out := vschema.NewMsg(chunkDesc())
-		err = e.CC.Invoke(ctx, full, newChunk(id, 0), out, append(opts, grpc.Header(&hmd), grpc.Trailer(&tmd))...)
+		err = e.CC.Invoke(ctx, full, newChunkPad(id, 0, c.Script.Pad), out, append(opts, grpc.Header(&hmd), grpc.Trailer(&tmd))...)
 		if err == nil {
 			o.Replies = 1
 		}
@@ -1305,7 +1376,7 @@ func (e *Env) doGRPC(c *Case, id string) *Obs {
 		var st grpc.ClientStream
 		st, err = e.CC.NewStream(ctx, &grpc.StreamDesc{ClientStreams: md.IsStreamingClient(), ServerStreams: md.IsStreamingServer()}, full, opts...)
 		if err == nil {
-			if err = st.SendMsg(newChunk(id, 0)); err == nil || err == io.EOF {
+			if err = st.SendMsg(newChunkPad(id, 0, c.Script.Pad)); err == nil || err == io.EOF {
 				if !c.Hold {
 					st.CloseSend()
 				}
@@ -1355,9 +1426,9 @@ func (c *Case) grpcCT(base string) string {
 func (c *Case) grpcBody(id string) []byte {
 	var b []byte
 	if c.Codec == "json" {
-		b, _ = protojson.Marshal(newChunk(id, 0))
+		b, _ = protojson.Marshal(newChunkPad(id, 0, c.Script.Pad))
 	} else {
-		b, _ = proto.Marshal(newChunk(id, 0))
+		b, _ = proto.Marshal(newChunkPad(id, 0, c.Script.Pad))
 	}
 	if c.Gzip {
 		return wire.Frame(wire.Gzip(b), true)
@@ -1382,6 +1453,7 @@ func (e *Env) doGRPCRaw(c *Case, id string) *Obs {
 	o := fromResp(r)
 	frames, rest := wire.ParseFrames(r.Body)
 	o.Replies = len(frames)
+	o.countCompressed(frames)
 	if len(rest) > 0 {
 		o.WebErr = fmt.Sprintf("%d trailing bytes do not form a frame", len(rest))
 	}
@@ -1429,6 +1501,7 @@ func (e *Env) doGRPCH2C(c *Case, id string) *Obs {
 	}
 	frames, rest := wire.ParseFrames(o.Body)
 	o.Replies = len(frames)
+	o.countCompressed(frames)
 	if len(rest) > 0 {
 		o.WebErr = fmt.Sprintf("%d trailing bytes do not form a frame", len(rest))
 	}
@@ -1452,6 +1525,11 @@ func (o *Obs) decodeWeb(text bool) {
 	}
 	wr := wire.DecodeWeb(o.Body, text)
 	o.Replies = len(wr.Msgs)
+	for _, f := range wr.Flags {
+		if f&0x01 != 0 {
+			o.CompFrames++
+		}
+	}
 	o.MDTrl = map[string][]string{} // HTTP-level trailers are invisible to a gRPC-web client
 	if wr.DecodeErr != nil {
 		o.WebErr = wr.DecodeErr.Error()
@@ -1593,6 +1671,176 @@ func (e *Env) doWS(c *Case, id string) *Obs {
 			return o
 		}
 	}
+}
+
+// ---------------------------------------------------------------- history
+
+// HistObs is what the clients of the traffic that precedes a case observed.
+type HistObs struct {
+	Kind       string `json:"kind"`
+	Calls      int    `json:"calls"`       // calls issued
+	OK         int    `json:"ok"`          // calls whose client saw the scripted outcome
+	Unexpected int    `json:"unexpected"`  // calls that ended otherwise (no verdict: not this case)
+	CompFrames int    `json:"comp_frames"` // reply frames that arrived compressed (raw clients)
+	Panics     int    `json:"panics"`      // server panics during the traffic (no verdict here)
+}
+
+// HistoryKinds are the kinds of earlier traffic of Case.After, lightest first.
+var HistoryKinds = []string{"failed-calls", "large-messages", "ws-streams", "http-gzip", "gzip-grpcweb", "gzip-grpc", "mixed"}
+
+const histEscaped = "earlier call: donn\u00e9es 100% perdues \u2713\n"
+
+// historyCalls is the traffic of one kind: calls of other clients that the
+// same mux serves at the same time right before a case. n selects among the
+// variants of the kind (the generator passes a PRNG-determined number).
+func historyCalls(kind, target string, n int) []*Case {
+	mk := func(proto, codec, method string, replies int, gz bool, pad int) *Case {
+		c := &Case{Kind: "C05hist", Proto: proto, Codec: codec, Method: method, Target: target, Gzip: gz, Class: "history-" + kind,
+			Script: Script{Replies: replies, Pad: pad}}
+		if method == "Echo" {
+			c.Script.Replies = 1
+		}
+		return c
+	}
+	fail := func(proto, codec, method string, replies int, code uint32, long bool) *Case {
+		c := mk(proto, codec, method, replies, false, 0)
+		if method == "Echo" {
+			c.Script.Replies = 0
+		}
+		c.Script.Code, c.Script.Details = code, true
+		c.Script.Msg = histEscaped
+		if long {
+			c.Script.Msg = repeatTo(histEscaped, 2000)
+		}
+		c.Script.Msg = strings.TrimSpace(c.Script.Msg)
+		return c
+	}
+	pads := []int{300, 1500, 9000}
+	pad := pads[n%len(pads)]
+	var all []*Case
+	switch kind {
+	case "gzip-grpc":
+		all = []*Case{
+			mk("grpc", "proto", "Echo", 1, true, pad), mk("grpc", "json", "SS", 2, true, pad), mk("grpc-raw", "proto", "Echo", 1, true, pad),
+			mk("grpc-raw", "proto", "SS", 3, true, pad), mk("grpc-h2c", "proto", "SS", 1, true, pad), mk("grpc", "proto", "Bidi", 2, true, pad),
+			mk("grpc-raw", "json", "Echo", 1, true, pad), mk("grpc", "proto", "Echo", 1, true, 40000),
+		}
+	case "gzip-grpcweb":
+		all = []*Case{
+			mk("grpcweb", "proto", "Echo", 1, true, pad), mk("grpcweb-text", "proto", "SS", 2, true, pad), mk("grpcweb", "json", "SS", 3, true, pad),
+			mk("grpcweb-text", "json", "Echo", 1, true, pad), mk("grpcweb-sock", "proto", "SS", 1, true, pad), mk("grpcweb-text-sock", "proto", "Echo", 1, true, pad),
+			mk("grpcweb", "proto", "SS", 1, true, 40000), mk("grpcweb-text", "proto", "Echo", 1, true, pad),
+		}
+	case "large-messages":
+		big := 48 << 10
+		all = []*Case{
+			mk("grpc", "proto", "Echo", 1, false, big), mk("grpc-raw", "proto", "SS", 2, false, big), mk("grpcweb", "proto", "Echo", 1, false, big),
+			mk("grpcweb-text", "proto", "SS", 1, false, big), mk("http", "json", "Echo", 1, false, big), mk("http", "proto", "SS", 2, false, big),
+			mk("twirp", "json", "Echo", 1, false, big), mk("grpc-h2c", "proto", "Echo", 1, false, big),
+		}
+	case "http-gzip":
+		all = []*Case{
+			mk("http", "json", "Echo", 1, true, pad), mk("http", "proto", "Echo", 1, true, pad), mk("http", "json", "SS", 2, true, pad),
+			mk("http-sock", "json", "Echo", 1, true, pad), mk("twirp", "json", "Echo", 1, true, pad), mk("http", "proto", "SS", 1, true, pad),
+			mk("http-sock", "proto", "SS", 2, true, pad), mk("twirp", "proto", "Echo", 1, true, pad),
+		}
+		for _, c := range all {
+			c.AcceptEnc = "gzip"
+		}
+	case "failed-calls":
+		all = []*Case{
+			fail("grpc", "proto", "Echo", 0, 13, true), fail("grpc-raw", "proto", "SS", 1, 5, false), fail("grpcweb", "proto", "Echo", 0, 9, true),
+			fail("grpcweb-text", "json", "SS", 2, 13, false), fail("http", "json", "Echo", 0, 5, true), fail("http", "proto", "Echo", 0, 16, false),
+			fail("twirp", "json", "Echo", 0, 13, true), fail("ws", "json", "Bidi", 1, 5, false),
+		}
+	case "ws-streams":
+		all = []*Case{
+			mk("ws", "json", "Bidi", 3, false, pad), mk("ws", "json", "Bidi", 1, false, pad), fail("ws", "json", "Bidi", 2, 13, true),
+			mk("ws", "json", "Bidi", 2, false, 20000), fail("ws", "json", "Bidi", 0, 5, false), mk("ws", "json", "Bidi", 4, false, 0),
+		}
+	case "mixed":
+		for i, k := range []string{"gzip-grpc", "gzip-grpcweb", "large-messages", "http-gzip", "failed-calls", "ws-streams"} {
+			cs := historyCalls(k, target, n+i)
+			all = append(all, cs[(n+i)%len(cs)], cs[(n+i+3)%len(cs)])
+		}
+	}
+	for _, c := range all {
+		c.Class = "history-" + kind
+	}
+	return all
+}
+
+// histOK: did the client of a history call see the scripted outcome?
+func histOK(c *Case, o *Obs, rec Rec) bool {
+	if o.Err != "" && c.Proto != "ws" || o.Timeout || o.Wedged || !rec.Ran {
+		return false
+	}
+	sc := &c.Script
+	switch {
+	case c.Proto == "ws":
+		return o.WSClose && (sc.Code != 0 || o.Replies == rec.Sent)
+	case strings.HasPrefix(c.Proto, "http"), strings.HasPrefix(c.Proto, "twirp"):
+		if o.EncErr != "" {
+			return false
+		}
+		if sc.Code == 0 {
+			return o.HTTP == 200
+		}
+		return o.HTTP >= 400 || rec.Sent > 0
+	}
+	return o.HasStatus && o.Code == uint64(sc.Code) && o.WebErr == "" && o.Replies == rec.Sent
+}
+
+// history serves, on the mux of the case, the traffic that Case.After names:
+// the calls run at the same time (one goroutine per client) and all of them
+// have ended before the case itself starts. The calls are not judged (each
+// of their classes has cases of its own); what their clients saw is counted.
+func (e *Env) history(c *Case) *HistObs {
+	h := &HistObs{Kind: c.After}
+	// the variant of the kind follows from the case (deterministic, replayable)
+	n := len(c.Script.Msg) + int(c.Script.Code) + c.Script.Replies + len(c.Proto) + len(c.Method)
+	calls := historyCalls(c.After, c.Target, n)
+	type res struct {
+		ok   bool
+		comp int
+		pan  int
+	}
+	out := make([]res, len(calls))
+	var wg sync.WaitGroup
+	for i, hc := range calls {
+		wg.Add(1)
+		go func(i int, hc *Case) {
+			defer wg.Done()
+			sc := hc.Script
+			id := e.register(&sc)
+			o := e.do(hc, id)
+			if (strings.HasPrefix(hc.Proto, "http") || strings.HasPrefix(hc.Proto, "twirp")) && o.Hdr != nil && strings.EqualFold(strings.TrimSpace(o.Hdr.Get("Content-Encoding")), "gzip") {
+				if b, err := wire.Gunzip(o.Body); err != nil {
+					o.EncErr = err.Error()
+				} else {
+					o.Body = b
+					o.CompFrames++ // a compressed HTTP body
+				}
+			}
+			rec := e.take(id)
+			out[i] = res{ok: histOK(hc, o, rec), comp: o.CompFrames, pan: len(o.Panics)}
+		}(i, hc)
+	}
+	wg.Wait()
+	for _, r := range out {
+		h.Calls++
+		if r.ok {
+			h.OK++
+		} else {
+			h.Unexpected++
+		}
+		h.CompFrames += r.comp
+		h.Panics += r.pan
+	}
+	// panics the socket server logged while it served the history are not
+	// observations of the case that follows
+	h.Panics += len(e.newPanics())
+	return h
 }
 
 // ------------------------------------------------------------- utilities
